@@ -35,11 +35,22 @@ func (valdec sliceDecoder) Decode(dec *Decoder, p interface{}, tag byte) {
 	case TagEmpty:
 		setSliceHeader(reflect2.PtrOf(p), valdec.empty, 0)
 	case TagList:
-		count := dec.ReadInt()
+		count := dec.ReadCount()
 		slice := reflect2.PtrOf(p)
-		valdec.t.UnsafeGrow(slice, count)
+		n := dec.prealloc(count)
+		valdec.t.UnsafeGrow(slice, n)
 		dec.AddReference(p)
 		for i := 0; i < count; i++ {
+			if i == n {
+				// the count could not be checked against the input: grow as elements arrive
+				if dec.Error != nil {
+					break
+				}
+				if n *= 2; n > count {
+					n = count
+				}
+				valdec.t.UnsafeGrow(slice, n)
+			}
 			valdec.decodeElem(dec, valdec.et, valdec.t.UnsafeGetIndex(slice, i))
 		}
 		dec.Skip()
